@@ -386,7 +386,7 @@ def run(prop, tier, seed, replay=None, embed=False):
         "replica nodes are real replica.Server instances in the driver process behind the real REST router and rpc server; faults are injected in thin wrappers in front of them",
         "the controller's monitoring goroutines are held at the verif gate: the scenario decides when each runs",
         "forcing a replica to RW through PUT /v1/replicas is an operator override outside the model",
-        "rpc read/write deadlines shortened to 0.7 s through types.RPCReadTimeout/RPCWriteTimeout",
+        "rpc read/write deadlines shortened to 1.5 s through types.RPCReadTimeout/RPCWriteTimeout",
     ]
     try:
         mc_states = mc_trans = 0
